@@ -605,11 +605,14 @@ func RunC19(seed uint64) *det.CaseResult {
 	for i := 0; i < 4; i++ {
 		c.nodeWorld()
 	}
+	for i := 0; i < 10; i++ {
+		c.allocWorld()
+	}
 	out := &det.CaseResult{Prop: "C19", Seed: seed, Obs: c.obs, Nontrivial: c.obs["c19.queue_pairs_distinguished"] > 0 && c.obs["c19.queue_pairs_tied"] > 0}
 	out.Hash = hex.EncodeToString(hh.Sum(nil)[:12])
 	for _, v := range c.v {
 		out.Violations = append(out.Violations, det.Violation{Prop: "C19", Rule: v.rule, Signature: "C19/" + v.rule + "/" + v.class, Text: v.text})
 	}
-	out.Sample = &det.Sample{Seed: fmt.Sprintf("%#x", seed), Ops: []string{"12 queue worlds (parent with 2-9 children, random guaranteed/max/allocated/pending/priority/offset, sorted 16 times through the real sortQueues), 8 application worlds (sorted 12 times), 6 ask scripts, 4 node collection scripts"}}
+	out.Sample = &det.Sample{Seed: fmt.Sprintf("%#x", seed), Ops: []string{"12 queue worlds (parent with 2-9 children, random guaranteed/max/allocated/pending/priority/offset, sorted 16 times through the real sortQueues), 8 application worlds (sorted 12 times), 6 ask scripts, 4 node collection scripts, 10 allocation worlds (real Queue.TryAllocate until every ask is allocated; each decision judged against the sort keys read right before the call)"}}
 	return out
 }
